@@ -1118,8 +1118,10 @@ theorem Inv_stepBody (wf : PlaceWF m) (p : Params) (s : St) (h : Inv m s.live) :
   rw [stepBody_live]
   apply Inv_perform
   apply Inv_compCheck
-  apply Inv_chkWorking
-  exact Inv_preWorking m wf p s h
+  cases startGuard p s
+  · exact Inv_preWorking m wf p s h
+  · apply Inv_chkWorking
+    exact Inv_preWorking m wf p s h
 
 theorem initProject_placed (logInfo : Bool) (s : St) (c : Nat) (hc : c < m.nC) :
     (initProject m true logInfo s).live.placed c = Option.none := by
@@ -1193,7 +1195,9 @@ theorem updTrace_mem_updated (p : Params) :
 theorem stepBody_placed (p : Params) (s : St) :
     (stepBody m p s).live.placed = (preWorking m p s).placed := by
   rw [stepBody_live]
-  exact core_placed (chkWorking_core m (preWorking m p s))
+  cases startGuard p s
+  · rfl
+  · exact core_placed (chkWorking_core m (preWorking m p s))
 
 /-- **Movement rules of one step.**  A component whose placement differs before and after a
 step was moved by the step's allocation pass (so the step is a working step), exactly once, and
